@@ -89,6 +89,26 @@ fn c23_check_route(h: u16, partitions: u16, buckets: u16, salt: u64, fails: &mut
     if b_db != b_helper {
         fails.push(Failure::new("C23/route/partition_id_to_bucket-vs-database", format!("P={partitions} B={buckets} partition {p_by_key}: helper {b_helper} != database {b_db}")));
     }
+    // a transaction is routed by its key: *every* event id must embed the key's hash. Multi-event
+    // transactions with exactly one foreign id (any position, length 2-6, foreign hash differing in
+    // one low bit / one high bit / by the partition count) must be rejected, the all-own one accepted
+    let n = 2 + (salt % 5) as usize;
+    let bad_at = (salt >> 8) as usize % n;
+    let foreign_hash = match (salt >> 16) % 3 {
+        0 => h ^ 1,
+        1 => h ^ 0x8000,
+        _ => h.wrapping_add(partitions),
+    };
+    let own: smallvec::SmallVec<[NewEvent; 4]> = (0..n).map(|i| ev(make_id(h, 10 + i as u64, salt))).collect();
+    if Transaction::new(key, p_by_key, own).is_err() {
+        fails.push(Failure::new("C23/id/transaction-new-rejects", format!("Transaction::new rejects a {n}-event transaction whose ids all embed the key's hash {h}")));
+    }
+    if foreign_hash != h {
+        let mixed: smallvec::SmallVec<[NewEvent; 4]> = (0..n).map(|i| ev(make_id(if i == bad_at { foreign_hash } else { h }, 10 + i as u64, salt))).collect();
+        if Transaction::new(key, p_by_key, mixed).is_ok() {
+            fails.push(Failure::new("C23/id/transaction-new-accepts-mixed", format!("Transaction::new accepts a {n}-event transaction for a key with hash {h} although event {bad_at} carries an id with hash {foreign_hash} (partition {} instead of {p_by_key} of {partitions})", foreign_hash % partitions)));
+        }
+    }
     let b_event = extract_event_id_bucket(event_id, buckets);
     if b_event != b_helper {
         fails.push(Failure::new(
@@ -106,7 +126,7 @@ impl Check for C23 {
         "exploration"
     }
     fn rule(&self) -> String {
-        "exhaustive stage: every one of the 2^16 partition hashes x {repo generator (wall clock/thread RNG), harness bit patterns with all-zero / all-one / mixed random fields} checked for hash round-trip, validate_event_id and Transaction::new (own key accepted, key with another hash rejected). PBT stage: tape-derived arbitrary 128-bit patterns for the flag functions and (hash, partitions>=buckets>=1) routing triples. Non-trivial: flag case whose input already has the flag bit set or whose variant bits are not 10; routing case with buckets>1 and partitions not a multiple of buckets; exhaustive hashes count each hash once.".into()
+        "exhaustive stage: every one of the 2^16 partition hashes x {repo generator (wall clock/thread RNG), harness bit patterns with all-zero / all-one / mixed random fields} checked for hash round-trip, validate_event_id and Transaction::new (own key accepted, key with another hash rejected). PBT stage: tape-derived arbitrary 128-bit patterns for the flag functions and (hash, partitions>=buckets>=1) routing triples, each with a 2-6 event transaction of own ids (accepted) and one with a single foreign id at a tape-chosen position (rejected). Non-trivial: flag case whose input already has the flag bit set or whose variant bits are not 10; routing case with buckets>1 and partitions not a multiple of buckets; exhaustive hashes count each hash once.".into()
     }
     fn assumptions(&self) -> Vec<String> {
         vec![
